@@ -83,7 +83,7 @@ def run(ctx, rep):
         ok = bool(g) and all(success_dominates(cb, g[0], w.bb) for w in writes)
         rep.ob('R15.c', fn, 'validated before the catalogue changes', ok, g[0].where() if g else None, None if ok else 'the topic map / name index can be written before the size limit was validated')
 
-    rep.rule('R15.d', 'the cleaner makes room only when told to: deletion of oldest segments is under !is_unlimited ∧ delete_oldest_segments ∧ is_almost_full', floor=1, analysis='A3')
+    rep.rule('R15.d', 'the cleaner makes room only when told to: deletion of oldest segments is under !is_unlimited ∧ delete_oldest_segments ∧ is_almost_full', floor=3, analysis='A3')
     hb = ctx.fn_body(MM + 'handle_oldest_segments')
     ds = [c for c in hb.calls if c.name == MM + 'delete_segments']
     if not ds:
@@ -96,5 +96,15 @@ def run(ctx, rep):
         rep.ob('R15.d', MM + 'handle_oldest_segments', 'guards', unl and dele and alm, ds[0].where(),
                'under !is_unlimited, delete_oldest_segments and is_almost_full' if unl and dele and alm else
                'oldest segments are deleted without: %s' % [n for n, v in (('!is_unlimited', unl), ('delete_oldest_segments', dele), ('is_almost_full', alm)) if not v])
+        # candidates are closed first segments only (never the newest data) — same clause as C14 R14.c
+        ob = ctx.fn_body(MM + 'get_oldest_segments')
+        pu = [c for c in ob.calls if c.matches('std::vec::Vec::push') and is_user_call(c)]
+        if not pu:
+            rep.anchor_lost('R15.d', 'push in get_oldest_segments')
+        else:
+            okc = any(e[0] == 'field' and e[2] == 'is_closed' and t for e, t, _ in bool_literals_at(ob, pu[0].bb))
+            rep.ob('R15.d', MM + 'get_oldest_segments', 'closed only', okc, pu[0].where(), None if okc else 'an open segment (the newest data of a partition) can be deleted to make room')
+            first = any(c.name.split('::')[-1] == 'first' for c in ob.calls if is_user_call(c))
+            rep.ob('R15.d', MM + 'get_oldest_segments', 'first segment only', first, pu[0].where(), None if first else 'the candidate is no longer the first (oldest) segment')
         src = canon(hb.pexpr_operand(ds[0].args[1]), 0, 1)
         rep.ob('R15.d', MM + 'handle_oldest_segments', 'candidates from get_oldest_segments', 'get_oldest_segments' in src, ds[0].where(), 'delete_segments(topic, %s)' % src[:80])
